@@ -154,6 +154,8 @@ class QueueElement:
                 self.name = bytes(buf[1:])
         if buf[0] == 0xFF:  # if it is a custom/user-defined data format
             self.data.append(buf)  # return the raw buffer as a value
+        if buf[0] == 0x16 and len(buf) < 3:
+            return False  # service data without a complete UUID
         if buf[0] == 0x16:  # if it is service data
             service_data_uuid = struct.unpack("<H", buf[1:3])[0]
             if service_data_uuid == TEMPERATURE_UUID:
